@@ -472,7 +472,9 @@ def parseLine(raw, eols=(CRLF, LF, CR ), kind="event line"):
         index, size = findEol(raw, eols)  # earliest eol, not found index == -1
 
         if index < 0:  # not found
-            if len(raw) > MAX_LINE_SIZE:
+            # a CR ending raw may still turn out to be the eol of a line of
+            # MAX_LINE_SIZE bytes so only too long when one more than that
+            if len(raw) > MAX_LINE_SIZE + 1:
                 raise LineTooLong(kind)
             else:
                 (yield None)  # more data needed not done parsing header
@@ -501,7 +503,9 @@ def parseLeader(raw, eols=(CRLF, LF), kind="leader header line", headers=None):
         index, size = findEol(raw, eols)  # earliest eol, not found index == -1
 
         if index < 0:  # not found
-            if len(raw) > MAX_LINE_SIZE:
+            # a CR ending raw may still turn out to be the eol of a line of
+            # MAX_LINE_SIZE bytes so only too long when one more than that
+            if len(raw) > MAX_LINE_SIZE + 1:
                 raise LineTooLong(kind)
             else:
                 (yield None)  # more data needed not done parsing header
